@@ -27,6 +27,8 @@ pub fn crash(depth: usize) -> Value {
         ("drop table u", t0.clone(), None, false),
         ("create table w(a int)", t0.clone(), Some(u0.clone()), true),
         ("delete from t where v > 0", vec![], Some(u0.clone()), false),
+        // a record with multi-byte UTF-8 text: a cut inside a character must still be a torn tail, not an unreadable log
+        ("create table w(a int, \u{e9}\u{e8}\u{4e2d}\u{6587} int)", t0.clone(), Some(u0.clone()), true),
     ];
     let after: Vec<String> = vec!["select k, v from t".into(), "select k, v from u".into(), "select a from w".into(), "insert into t values (100,1000)".into(), "select k, v from t".into()];
     let again: Vec<String> = vec!["select k, v from t".into(), "select k, v from u".into(), "select a from w".into()];
